@@ -491,6 +491,9 @@ func (x *c15run) one(stream string, index int, k c15Case) {
 	m2 := c15Train(k.Placeholder, im.Files, true)
 	out2, oc2 := c15InferFormat(m2, k.Target, nil)
 	c.Monitor(stream, index, "C15_deterministic(training order reversed)", in, oc2 == "ok" && out2 == im.Out, "first "+clipTo(fmt.Sprintf("%q", im.Out), 500)+" reversed "+clipTo(fmt.Sprintf("%q", out2), 500))
+	// idempotence (theorem C15_idempotent_after): infer on its own output with the same model writes the same text
+	out4, oc4 := c15InferFormat(im.Model, im.Out, nil)
+	c.Monitor(stream, index, "C15_idempotent_after(infer on its own output, same training)", in, oc4 == "ok" && out4 == im.Out, "first "+clipTo(fmt.Sprintf("%q", im.Out), 500)+" second "+clipTo(fmt.Sprintf("%q", out4), 500)+" "+oc4)
 	if index%4 == 0 {
 		for rep := 0; rep < 3; rep++ {
 			m3 := c15Train(k.Placeholder, im.Files, false)
